@@ -10,7 +10,7 @@
 From Coq Require Import List Arith Bool Lia.
 Import ListNotations.
 Require Import MRB.Model.Types MRB.Model.Seq MRB.Spec.Pipe MRB.Model.Trace.
-Require Import MRB.Conc.RA MRB.Conc.RAg MRB.Conc.RA3 MRB.Conc.RA3g MRB.Proofs.ConcClosing MRB.Proofs.Rel MRB.Proofs.SpecFacts MRB.gen.Profile.
+Require Import MRB.Conc.RA MRB.Conc.RAg MRB.Conc.RAn MRB.Conc.RAnproof MRB.Conc.RA3 MRB.Conc.RA3g MRB.Proofs.ConcClosing MRB.Proofs.Rel MRB.Proofs.SpecFacts MRB.gen.Profile.
 
 Theorem C03_race_free_three_stages :
   forall p : profile, profile_ok p = true -> forall (len : nat) (script : list (tid * nat)), 0 < len ->
@@ -23,6 +23,13 @@ Theorem C03_race_free_two_stages :
   race (gexec (ge_acq (p_idx_load p)) (ge_rel (p_idx_store p)) len (ginit len) script) = false.
 Proof. exact ConcClosing.race_free_2stage. Qed.
 Print Assumptions C03_race_free_two_stages.
+
+(** multi-slot operations (push_slice / copy_slice style windows of any size, one slot access per step, remembered
+    availability), two stages: every length, every interleaving, every admissible stale read *)
+Theorem C03_race_free_slices :
+  forall (len : nat) (script : list (bool * nat * nat)), 0 < len -> RAn.race (exec_n len (init_n len) script) = false.
+Proof. exact RAnproof.spsc_n_race_free. Qed.
+Print Assumptions C03_race_free_slices.
 
 (** the orderings the source really passes (regenerated on every run) satisfy the hypothesis *)
 Theorem C03_observed_ok : profile_ok Profile.observed = true /\ Profile.extractor_clean = true.
